@@ -82,14 +82,25 @@ RootWRemoveA ==
 BarrierOnlyA ==
   /\ WithBarrierOnly
   /\ \E p \in A, c \in A :
-       \E path \in (StrongPaths(h.kind[p]) \cup WeakPaths(h.kind[p])) \ {"once_set", "once_init", "lock_set"} :
+       \E path \in BarrierPaths(h.kind[p]) :
          Do(BarrierOnly(h, path, p, c), [op |-> "barrier", p |-> p, c |-> c, path |-> path])
+
+\* Try to upgrade a weak pointer that the specification says must NOT upgrade (a condemned or
+\* destructed target) and store the result: a no-op here; an implementation whose upgrade
+\* wrongly succeeds adopts a doomed pointer, which the monitor then sees destructed while reachable.
+\* (Successful upgrades followed by a store are LinkA with a weakly accessible child.)
+UpgradeStoreA ==
+  \E e \in WeakEdges(h), p \in A :
+    /\ ~CanUpgrade(h, e[2])
+    /\ HasRoom(h, p) \/ h.kind[p] = "L"
+    /\ \E path \in StrongPaths(h.kind[p]) :
+         Do(UpgradeStore(h, e[2], p, path), [op |-> "upgrade_store", h |-> e[1], t |-> e[2], p |-> p, path |-> path])
 
 \* one parent-only backward barrier, then several adoptions in the same callback
 LinkManyA ==
   /\ WithMany
   /\ \E p \in A, c1 \in A, c2 \in A :
-       /\ h.kind[p] = "N" /\ c1 # c2 /\ c1 \notin Kids(h, p) /\ c2 \notin Kids(h, p)
+       /\ h.kind[p] \in {"N", "F"} /\ c1 # c2 /\ c1 \notin Kids(h, p) /\ c2 \notin Kids(h, p)
        /\ Len(h.strong[p]) + 2 <= MaxKids
        /\ Do(Mut([Backward(h, p, NoObj) EXCEPT !.strong[p] = @ \o <<c1, c2>>]),
              [op |-> "link_many", p |-> p, c1 |-> c1, c2 |-> c2])
@@ -98,7 +109,7 @@ LinkManyA ==
 LinkByManyA ==
   /\ WithMany
   /\ \E c \in A, p1 \in A, p2 \in A :
-       /\ p1 # p2 /\ h.kind[p1] = "N" /\ h.kind[p2] = "N"
+       /\ p1 # p2 /\ h.kind[p1] \in {"N", "F"} /\ h.kind[p2] \in {"N", "F"}
        /\ c \notin Kids(h, p1) /\ c \notin Kids(h, p2) /\ HasRoom(h, p1) /\ HasRoom(h, p2)
        /\ Do(Mut([Forward(h, NoObj, c) EXCEPT !.strong[p1] = Append(@, c), !.strong[p2] = Append(@, c)]),
              [op |-> "link_by_many", c |-> c, p1 |-> p1, p2 |-> p2])
@@ -129,6 +140,7 @@ DropArenaA == WithDrop /\ Do(DropAll(h), [op |-> "drop_arena"])
 
 Mutator == \/ AllocRootA \/ AllocIntoA \/ AllocTempA \/ LinkA \/ UnlinkA \/ RootAddA \/ RootRemoveA
            \/ WLinkA \/ WUnlinkA \/ RootWAddA \/ RootWRemoveA \/ BarrierOnlyA \/ LinkManyA \/ LinkByManyA
+           \/ UpgradeStoreA
 Collector == CallA \/ StartSweepingA \/ FinalizeA
 
 Next == Running /\ (Mutator \/ Collector \/ DropArenaA)
